@@ -36,6 +36,7 @@ def run(chk, tier):
         c10.check_config(chk, prog, cfg)
         # R1.8: IntoPortable exhaustiveness (shared with C02)
         c02.check_config(chk, prog, cfg)
+    cr.check_debug_asserts(chk, rule="R1.9")
     n = len({i["construct"] for i in chk.instances if i["rule"] == "R10.E"})
     chk.floor("R10.E", n, 9, "id-typed places of PortableType: 9")
     n = len({i["construct"] for i in chk.instances if i["rule"] == "R2.1" and i["construct"].startswith("field:")})
